@@ -137,6 +137,7 @@ def run(tier, seed):
         both("certinfo", b0, impl.parse_cert_info, None, "garbage")
     if R:
         R.close()
+    fw.env_invariance(chk, "codec")          # the same seeded cases under -O / -OO, warnings-as-errors, other TZ / locale, a private CA bundle
     return fw.finish(chk, ob, br, TRUSTED,
                      ["layouts follow TPM 2.0 Part 2 (TPMS_ATTEST with TPMS_CERTIFY_INFO, TPMT_PUBLIC with TPMS_RSA_PARMS / TPMS_ECC_PARMS)"],
                      RULE, "coqc -Q . PW Properties/C12.v; thorough: coqchk -o")
